@@ -34,7 +34,8 @@ Definition evaluator_table : list entry := [
   ("SequenceConstruct/sequence_construct", (["set_sym_value"], Differential seq_reason));
   ("Concat/concat", (["dims"; "get_shape_value"; "set_sym_value"; "shape"],
      Modelled ["C09_concat_drop_shape_sound"; "C09_concat_drop_all_shape_sound"; "C09_block_concat_drop";
-               "C09_concat_drop_accepts_exactly_refuted"; "C09_shape_value_sound"]));
+               "C09_concat_drop_accepts_exactly_refuted"; "C09_concat_drop_fixed_accepts_exactly"; "C09_keq_except_sound";
+               "C09_shape_value_sound"]));
   ("Dropout/dropout v(12, None)", ([], NoShapeUse));
   ("Expand/expand", (["SymbolicDim"; "_same_shape"; "dims"; "get_shape_value"; "shape"],
      Modelled ["C09_expand_identity_sound"; "C09_expand_identity_const_sound"]));
@@ -57,7 +58,7 @@ Definition rule_table : list entry := [
   ("_basic_rules.py:TransposeTranspose", ([], NoShapeUse));
   ("_basic_rules.py:UnsqueezeUnsqueeze", ([], NoShapeUse));
   ("_basic_rules.py:Flatten2Reshape", (["shape"],
-     Differential "the emitted Reshape(x, [0,-1]) is refuted for an empty batch (C09_flatten_to_reshape_refuted, known finding); otherwise original vs optimize() at every binding (oracle-only models flatten-to-reshape:*)"));
+     Differential "the emitted Reshape(x, [0,-1]) is refuted for an empty batch (C09_flatten_to_reshape_refuted, known finding; C09_flatten_no_constant_target: no constant target is right for every rank-4 input, so the rule can only be repaired by refusing); otherwise original vs optimize() at every binding (oracle-only models flatten-to-reshape:*)"));
   ("_collapse_slices.py:collapse_slice_rule", (["is_dynamic"; "shape"], Modelled ["C09_collapse_slice1_sound"]));
   ("_collapse_slices.py:collapse_slice2_rule", (["same_shape"; "shape"], Modelled ["C09_iu_same_shape_sound"; "C09_collapse_slice_window"]));
   ("_materialize_reshape_shape.py:MaterializeReshapeShape", (["shape"], Modelled ["C09_materialize_reshape_sound"]));
